@@ -229,6 +229,11 @@ fn write_paths(h: &mut Harness, part: usize, parts: usize) -> Result<(Vec<(Strin
 /// a BLPOP registered in db 1 must be served by a push in db 1 and not by a push to the same key in db 0
 fn blocking_scenario(h: &mut Harness) -> Result<Vec<(String, Value)>, String> {
     let mut devs = Vec::new();
+    // `lost_race`: before anything else a push and a pop of the key arrive in one write in the client's own database, so
+    // its wake-up finds nothing and it goes back into the queue (a seeded requeue put a client without a deadline
+    // into database 0's registry)
+    for (lost_race, timeout) in [(false, "0"), (true, "0"), (true, "5")] {
+    let tag = if lost_race { format!(" (after a lost wake-up race, timeout {})", timeout) } else { String::new() };
     h.ensure()?;
     h.aux_call(&["FLUSHALL"])?;
     h.aux_call(&["SELECT", "0"])?;
@@ -238,11 +243,27 @@ fn blocking_scenario(h: &mut Harness) -> Result<Vec<(String, Value)>, String> {
     if r != R::ok() {
         return Err("SELECT 1 failed".into());
     }
-    a.send(&resp::cmd(&["BLPOP", "k", "0"]));
+    a.send(&resp::cmd(&["BLPOP", "k", timeout]));
     let _ = srv.steps(3);
     a.poll();
     if a.take_frame().ok().flatten().is_some() {
-        devs.push(("C18|BLOCKING|BLPOP on an empty list answered at once".into(), json!({})));
+        devs.push((format!("C18|BLOCKING|BLPOP on an empty list answered at once{}", tag), json!({})));
+    }
+    if lost_race {
+        h.aux_call(&["SELECT", "1"])?;
+        let mut bytes = resp::cmd(&["LPUSH", "k", "gone"]);
+        bytes.extend(resp::cmd(&["LPOP", "k"]));
+        {
+            let srv = h.srv.as_ref().unwrap();
+            let aux = h.aux.as_mut().unwrap();
+            srv.pipeline(aux, &bytes, 2).map_err(|(_, e)| format!("push+pop in one write: {:?}", e))?;
+            let _ = srv.steps(4);
+        }
+        h.aux_call(&["SELECT", "0"])?;
+        a.poll();
+        if let Ok(Some(f)) = a.take_frame() {
+            devs.push((format!("C18|BLOCKING|answered although the element was popped before its wake-up{}", tag), json!({"received": resp::show(&f)})));
+        }
     }
     // push in db 0 through the control connection
     let r = h.aux_call(&["RPUSH", "k", "zero"])?;
@@ -250,7 +271,7 @@ fn blocking_scenario(h: &mut Harness) -> Result<Vec<(String, Value)>, String> {
     let _ = srv.steps(4);
     a.poll();
     if let Ok(Some(f)) = a.take_frame() {
-        devs.push(("C18|BLOCKING|served-by-a-push-in-another-database".into(), json!({"push": "RPUSH k zero in db 0", "blocked": "BLPOP k 0 in db 1", "received": resp::show(&f), "push_reply": resp::show(&r)})));
+        devs.push((format!("C18|BLOCKING|served-by-a-push-in-another-database{}", tag), json!({"push": "RPUSH k zero in db 0", "blocked": "BLPOP k 0 in db 1", "received": resp::show(&f), "push_reply": resp::show(&r)})));
     }
     h.aux_call(&["SELECT", "1"])?;
     h.aux_call(&["RPUSH", "k", "one"])?;
@@ -260,18 +281,19 @@ fn blocking_scenario(h: &mut Harness) -> Result<Vec<(String, Value)>, String> {
     match a.take_frame() {
         Ok(Some(f)) => {
             if f != R::Arr(vec![R::Bulk(b"k".to_vec()), R::Bulk(b"one".to_vec())]) {
-                devs.push(("C18|BLOCKING|served-with-the-wrong-element".into(), json!({"received": resp::show(&f)})));
+                devs.push((format!("C18|BLOCKING|served-with-the-wrong-element{}", tag), json!({"received": resp::show(&f)})));
             }
         }
-        _ => devs.push(("C18|BLOCKING|not-served-by-a-push-in-its-own-database".into(), json!({}))),
+        _ => devs.push((format!("C18|BLOCKING|not-served-by-a-push-in-its-own-database{}", tag), json!({}))),
     }
     h.aux_call(&["SELECT", "0"])?;
     let l0 = h.aux_call(&["LRANGE", "k", "0", "-1"])?;
     if l0 != R::Arr(vec![R::Bulk(b"zero".to_vec())]) {
-        devs.push(("C18|BLOCKING|database-0-list-changed".into(), json!({"lrange_db0": resp::show(&l0)})));
+        devs.push((format!("C18|BLOCKING|database-0-list-changed{}", tag), json!({"lrange_db0": resp::show(&l0)})));
     }
     a.discard();
     let _ = h.srv.as_ref().unwrap().steps(2);
+    }
     // second scenario: a call on two keys in db 1 is served through one of them; the client moves to db 2 and blocks on
     // the other key's name there; a push to that name in db 1 is not for it (a seeded lazy clean-up of the leftover
     // registration looked only at the database of the new call)
